@@ -52,7 +52,13 @@ func runSvcChild(c *lib.Ctx, sc SvcScenario) {
 	errf, _ := os.Create(filepath.Join(dir, "stderr.log"))
 	ctx, cancel := context.WithTimeout(context.Background(), childTimeout)
 	defer cancel()
-	cmd := exec.CommandContext(ctx, os.Args[0], "--tier", c.Tier, "--seed", fmt.Sprint(c.Seed), "--shard", "0", "--shards", "1", "--out", dir, "--replay", wf, c.Prop)
+	// the running image itself (survives a rebuild or removal of the file in bin/ during the
+	// run, and guarantees parent and child are the same build)
+	exe := "/proc/self/exe"
+	if _, e := os.Stat(exe); e != nil {
+		exe = os.Args[0]
+	}
+	cmd := exec.CommandContext(ctx, exe, "--tier", c.Tier, "--seed", fmt.Sprint(c.Seed), "--shard", "0", "--shards", "1", "--out", dir, "--replay", wf, c.Prop)
 	tmp, terr := os.MkdirTemp("", "c16child-")
 	if terr != nil {
 		tmp = dir
@@ -106,6 +112,7 @@ func runSvcChild(c *lib.Ctx, sc SvcScenario) {
 		return
 	}
 	c.Observe("teamserver-crashes", 1)
+	c.Note("crash:"+first+"@"+frames, map[string]any{"scenario": sc.Key(), "progress": progress, "log": region})
 	c.Violation("svc-crash:"+first+"@"+frames,
 		fmt.Sprintf("the teamserver process died (%v) during %s", err, strings.Join(progress, " | ")),
 		map[string]any{"kind": sc.Kind, "k": sc.K, "interleave": sc.Interleave, "disc": sc.Disc, "collide": sc.Collide,
